@@ -40,6 +40,10 @@ def counter_attr(ctx: Ctx, ci) -> str | None:
 def _is_forward(ctx: Ctx, f: FuncInfo, call: ast.Call):
     """'inner' for self._inner.evaluate(..), 'super' for super().evaluate(..), else None."""
     fn = call.func
+    # the bound method handed to a helper that calls it: `self._timed(self._inner.evaluate, x, *args)`
+    for a_ in call.args:
+        if isinstance(a_, ast.Attribute) and a_.attr == "evaluate" and (is_self_attr(a_.value, "_inner", f.self_name()) or (isinstance(a_.value, ast.Call) and norm(a_.value.func) == "super")):
+            return "via-helper"
     if not (isinstance(fn, ast.Attribute) and fn.attr == "evaluate"):
         return None
     if is_self_attr(fn.value, "_inner", f.self_name()):
@@ -112,6 +116,37 @@ def function_summaries(ctx: Ctx, f: FuncInfo, ci, _depth=0) -> list[PathSummary]
             fw = [(c, _is_forward(ctx, f, c)) for c in calls]
             fw = [(c, k) for c, k in fw if k]
             for c, k in fw:
+                if k == "via-helper":
+                    # the helper must call the function it is handed exactly once, with the arguments it is handed
+                    cs = next((c_ for c_ in ctx.res.callsites(f) if c_.node is c), None)
+                    tg = cs.targets if cs is not None else []
+                    pos = next(i for i, a_ in enumerate(c.args) if isinstance(a_, ast.Attribute) and a_.attr == "evaluate")
+                    okh = False
+                    if len(tg) == 1:
+                        h = tg[0]
+                        hp = [x.arg for x in h.node.args.posonlyargs + h.node.args.args]
+                        if h.cls is not None and hp:
+                            hp = hp[1:]
+                        if pos < len(hp):
+                            pname = hp[pos]
+                            hcalls = [x for x in ast.walk(h.node) if isinstance(x, ast.Call) and isinstance(x.func, ast.Name) and x.func.id == pname]
+                            loops = [x for x in ast.walk(h.node) if isinstance(x, (ast.For, ast.While))]
+                            rest_formal = hp[pos + 1:] + (["*" + h.node.args.vararg.arg] if h.node.args.vararg else [])
+                            got = [("*" + norm(x.value)) if isinstance(x, ast.Starred) else norm(x) for x in (hcalls[0].args if hcalls else [])]
+                            gotkw = [("**" + norm(k_.value)) if k_.arg is None else f"{k_.arg}={norm(k_.value)}" for k_ in (hcalls[0].keywords if hcalls else [])]
+                            wantkw = ["**" + h.node.args.kwarg.arg] if h.node.args.kwarg else []
+                            okh = len(hcalls) == 1 and not loops and got == rest_formal and gotkw == wantkw
+                    if not okh:
+                        raise Inconclusive(f"{f.short} hands the wrapped evaluate to `{norm(c.func)}`, which is not followed")
+                    synth = ast.copy_location(ast.Call(func=c.args[pos], args=list(c.args[pos + 1:]), keywords=list(c.keywords)), c)
+                    for s in sums:
+                        if s.increments > 0:
+                            s.inc_before_forward = True
+                        s.forwards = min(2, s.forwards + 1)
+                        s.args_ok = s.args_ok and _args_unchanged(f, synth)
+                        s.events.append(("forward", c))
+                        s._super_ret = "forwarded"
+                    continue
                 if k == "super":
                     owner = f.cls
                     parent_f = ctx.prog.lookup_method(owner, "evaluate", after=owner)
